@@ -168,6 +168,7 @@ def _same(p, o):
 def run_property(pid, tier="quick", seed=0, only=None, jobs=None, no_replay=False):
     t0 = time.time()
     sys.path.insert(0, HERE)
+    os.environ["PYVC_TIER"] = tier          # contract sets pick their bounds with contracts.common.bound()
     status = {"violations": [], "known": [], "undecided": [], "crashes": [], "vacuous": []}
     try:
         sets = load_sets(pid)
